@@ -81,12 +81,12 @@ var cancelOps = map[string]struct {
 	"MergeMapInnerOpen": {"-", func() intOp {
 		return ro.MergeMap(func(v int) ro.Observable[int] { return cancelProbe.SyncThenOpen() })
 	}},
-	"SubscribeOn":           {"detachOn", func() intOp { return ro.SubscribeOn[int](4) }},
-	"Catch":                 {"Catch", func() intOp { return ro.Catch(func(err error) ro.Observable[int] { return ro.Just(9) }) }},
-	"MergeWith":             {"MergeAll", func() intOp { return ro.MergeWith(ro.Just(9)) }},
-	"Delay":                 {"Delay", func() intOp { return ro.Delay[int](time.Millisecond) }},
-	"Timeout":               {"Timeout", func() intOp { return ro.Timeout[int](time.Second) }},
-	"ThrottleTime":          {"ThrottleTime", func() intOp { return ro.ThrottleTime[int](time.Millisecond) }},
+	"SubscribeOn":  {"detachOn", func() intOp { return ro.SubscribeOn[int](4) }},
+	"Catch":        {"Catch", func() intOp { return ro.Catch(func(err error) ro.Observable[int] { return ro.Just(9) }) }},
+	"MergeWith":    {"MergeAll", func() intOp { return ro.MergeWith(ro.Just(9)) }},
+	"Delay":        {"Delay", func() intOp { return ro.Delay[int](time.Millisecond) }},
+	"Timeout":      {"Timeout", func() intOp { return ro.Timeout[int](time.Second) }},
+	"ThrottleTime": {"ThrottleTime", func() intOp { return ro.ThrottleTime[int](time.Millisecond) }},
 }
 
 func runCancelCase(c *Case) string {
